@@ -109,6 +109,7 @@ fn worker(case: &str, trace: &str) {
     let mut keep: Vec<Receiver<DebuggerEvent>> = vec![];
     let mut runs: Vec<Vec<String>> = vec![];
     let (mut conts_in_run, mut early) = (0usize, false);
+    let mut conts_per_run: Vec<usize> = vec![];
     for c in cmds.iter() {
         let label = match *c { "run" => "cmd.run", "cont" => "cmd.cont", "recv" => "cmd.recv", x if x.starts_with("add") => "cmd.add", _ => "cmd.del" };
         sh.0.lock().unwrap().ctrl_at = label.to_string();
@@ -128,13 +129,14 @@ fn worker(case: &str, trace: &str) {
                 if let Some(old) = cur_rx.take() { keep.push(old); }
                 let r = ctx.run(&start, tx);
                 let mut g = sh.0.lock().unwrap();
-                match r { Ok(()) => { g.rets.push("run:ok".into()); g.passed.push("SPAWN".into()); g.run_no += 1; g.entry_idx = 0; cur_rx = Some(rx); runs.push(vec![]); conts_in_run = 0; early = false; } Err(_) => { g.rets.push("run:panic".into()); cur_rx = None; } }
+                match r { Ok(()) => { g.rets.push("run:ok".into()); g.passed.push("SPAWN".into()); g.run_no += 1; g.entry_idx = 0; cur_rx = Some(rx); runs.push(vec![]); conts_per_run.push(0); conts_in_run = 0; early = false; } Err(_) => { g.rets.push("run:panic".into()); cur_rx = None; } }
             }
             "cont" => {
                 // a continue that does not answer a received, not yet continued breakpoint event
                 let bps_got = runs.last().map(|r| r.iter().filter(|e| e.starts_with('B')).count()).unwrap_or(0);
                 if conts_in_run >= bps_got { early = true; }
                 conts_in_run += 1;
+                if let Some(c) = conts_per_run.last_mut() { *c += 1; }
                 let r = match ctx.cont() { Ok(()) => "cont:ok", Err(pest_debugger::DebuggerError::EofReached) => "cont:eof", Err(_) => "cont:norun" }; sh.0.lock().unwrap().rets.push(r.into()); }
             "recv" => { let e = match &cur_rx { Some(rx) => match rx.recv() { Ok(e) => ev(&e), Err(_) => "closed".into() }, None => "norun".into() }; if let Some(r) = runs.last_mut() { r.push(e.clone()); } sh.0.lock().unwrap().recv.push(e); }
             x if x.starts_with("add") => { ctx.add_breakpoint(format!("r{}", &x[3..])); let n: u32 = x[3..].parse().unwrap_or(0); let mut g = sh.0.lock().unwrap(); if !g.bps_view.contains(&n) { g.bps_view.push(n); } }
@@ -161,6 +163,9 @@ fn worker(case: &str, trace: &str) {
             let want: Vec<&String> = g.locks.iter().filter(|(rn, k, view)| *rn == ri + 1 && entries.get(*k).map_or(false, |e| view.contains(&e.0))).map(|(_, k, _)| &entries[*k].1).collect();
             let looked = g.locks.iter().filter(|(rn, _, _)| *rn == ri + 1).count();
             let evs: Vec<&String> = r.iter().filter(|e| *e != "closed" && *e != "norun").collect();
+            // one per continue: the first event of a run needs no continue, every further one (a breakpoint or the final event) does
+            let conts = conts_per_run.get(ri).cloned().unwrap_or(0);
+            if evs.len() > conts + 1 && verdict == "ok" { verdict = format!("FAIL run {} delivered {} events ({:?}) but only {} continue(s) were issued in it: an event was delivered while waiting for a continue", ri + 1, evs.len(), evs, conts); }
             for (i, e) in evs.iter().enumerate() {
                 if e.starts_with('B') { if want.get(i) != Some(e) { verdict = format!("FAIL event {} of run {} is {} but the entries whose rule was a breakpoint when they were entered are {:?}", i, ri + 1, e, want); } }
                 else if i != want.len() || looked != entries.len() || (**e == "eof") != plain_ok { verdict = format!("FAIL final event {} after {} breakpoint events of run {}; {} of {} entries were looked up, {} of them breakpoints, and the plain VM parse {}", e, i, ri + 1, looked, entries.len(), want.len(), if plain_ok { "succeeds" } else { "fails" }); }
